@@ -8,7 +8,8 @@ import IncrVerif.Proofs.PerKeyH2
 * `instrKind`, `Inst`: the instance of a template for one key.
 * `OpOK env s op`: the bookkeeping of operator instance `op` — its four nodes, its result record, `prevNodes` ↔ the
   dependencies of the result record ↔ the per-key input nodes and template instances, `prevMap` ↔ `prevNodes`, and the
-  SEMANTIC link "the change detector is not stale ⟹ `prevMap` is the current input map".
+  SEMANTIC link "the change detector is not stale ⟹ `prevMap` is the current input map".  Stage 1b: ANY template of pure
+  static nodes (also one that ignores `%0`: `EntryOK.input` is "used by the instance, or never computed"), `cut ∈ {none, eq}`.
 * `Pot s ψ`: a potential that excludes cycles through result nodes.
 * `AuxP`, `PD`: the auxiliary invariant and the drain invariant; `PQ`: the invariant between API actions.
 -/
@@ -55,15 +56,14 @@ inductive Uses (t : Template) : Opnd → Prop
   | ret : Uses t t.ret
   | step {j : Nat} {i : Instr} {o : Opnd} : Uses t (.loc (j + 1)) → t.instrs[j]? = some i → o ∈ instrOpnds i → Uses t o
 
-/-- the returned node depends on the per-key input node (families P0, P3, P4; NOT P1 `map f1 n2 ; ret %1`, P2 `ret n2`) -/
+/-- the returned node depends on the per-key input node (families P0, P3, P4; NOT P1 `map f1 n2 ; ret %1`, P2 `ret n2`).
+Not a condition of the fragment: a case distinction of the proofs. -/
 def UsesInput (t : Template) : Prop := Uses t (.loc 0)
 
 structure TemplOK (env : Env) (t : Template) : Prop where
   instr : ∀ i, i ∈ t.instrs → TInstrOK env i
   opnd : ∀ j i, t.instrs[j]? = some i → ∀ o, o ∈ instrOpnds i → OpndOK j o
   ret : OpndOK t.instrs.length t.ret
-  /-- stage 1a: the instance's return node reaches the per-key input node -/
-  uses : UsesInput t
 
 /-- the outer names a template uses -/
 def templOuter (t : Template) : List Nat :=
@@ -77,6 +77,30 @@ structure Inst (s : State) (t : Template) (key : Int) (p : Nat) (locs : List Nat
   kind : ∀ j i c, t.instrs[j]? = some i → locs[j]? = some c →
     instrKind s.top (p :: locs.take j) (.int key) i = some (s.nodeD c).kind
   ret : resP s.top (p :: locs) t.ret = some m
+
+/-- the virtual stamp is `-1`: the record is flagged stale, or the node has never been computed -/
+theorem V_stamp_iff (s : State) (m : Nat) : ((V s).nodeD m).recomputedAt = -1 ↔
+    (forced s.experts (s.nodeD m).kind = true ∨ (s.nodeD m).recomputedAt = -1) := by
+  have h : (V s).nodeD m = vNode s (s.nodeD m) := by
+    unfold State.nodeD V
+    simp only [Array.getElem?_map]
+    cases h : s.nodes[m]? with
+    | none => rfl
+    | some nd => rfl
+  rw [h]
+  show (if forced s.experts (s.nodeD m).kind then (-1 : Int) else (s.nodeD m).recomputedAt) = -1 ↔ _
+  cases forced s.experts (s.nodeD m).kind <;> simp
+
+/-- the virtual stamp `-1` of an expert node is kept when its actual stamp is kept and a raised flag stays up -/
+theorem V_stamp_keep {s s' : State} {m e : Nat} (hk : (s.nodeD m).kind = .expert e)
+    (hk' : (s'.nodeD m).kind = (s.nodeD m).kind)
+    (hr : (s'.nodeD m).recomputedAt = (s.nodeD m).recomputedAt)
+    (hf : (xRec s.experts e).forceStale = true → (xRec s'.experts e).forceStale = true)
+    (h : ((V s).nodeD m).recomputedAt = -1) : ((V s').nodeD m).recomputedAt = -1 := by
+  rw [V_stamp_iff] at h ⊢
+  rw [hk', hr, hk]
+  rw [hk] at h
+  exact h.imp hf id
 
 /-! ## the bookkeeping of one operator instance -/
 
@@ -104,8 +128,10 @@ structure EntryOK (env : Env) (s : State) (op : Nat) (pr : PerKeyRec) (er : Expe
   /-- the dependency of the result: an edge with a callback on the return node of an instance of the template -/
   edge : ∃ ed locs, ed ∈ er.children ∧ ed.dep = d ∧ ed.cb = some d ∧
     Inst s (env.perKey pr.fam) key p locs ed.child ∧ (∀ c, c ∈ locs → pr.result + 2 < c) ∧ pr.result + 2 < p
-  /-- the input node is used by the instance: it is necessary (hence alive) whenever the result is -/
-  input : ∃ ed, ed ∈ er.children ∧ ed.dep = d ∧ ExpertH.Below s ed.child p
+  /-- the per-key input node is used by its instance — then it is necessary (hence alive) whenever the result is — or it
+  has never been computed (families that ignore their input): its VIRTUAL stamp is `-1` (the actual stamp is `-1`, or the
+  record is flagged `forceStale`, which is how the node is created) -/
+  input : (∃ ed, ed ∈ er.children ∧ ed.dep = d ∧ ExpertH.Below s ed.child p) ∨ ((V s).nodeD p).recomputedAt = -1
   /-- the instance consists of the nodes created right after the per-key input node -/
   consec : ∃ ed, ed ∈ er.children ∧ ed.dep = d ∧
     Inst s (env.perKey pr.fam) key p (List.range' (p + 1) (env.perKey pr.fam).instrs.length) ed.child ∧
@@ -117,7 +143,7 @@ def Priv (env : Env) (pr : PerKeyRec) (x : Nat) : Prop :=
   x = pr.lhsChange ∨ ∃ key p d, (key, (p, d)) ∈ pr.prevNodes ∧ p ≤ x ∧ x ≤ p + (env.perKey pr.fam).instrs.length
 
 structure OpOK (env : Env) (s : State) (op : Nat) (pr : PerKeyRec) : Prop where
-  cut : pr.cut = none
+  cut : pr.cut = none ∨ pr.cut = some .eq
   /-- OWNERSHIP: a private node is a child only of the result or of private nodes; it has no observer and no name -/
   own : ∀ c x, c < s.nodes.size → x ∈ kidsX s.experts (s.nodeD c).kind → Priv env pr x → c = pr.result ∨ Priv env pr c
   noObs : ∀ x, Priv env pr x → (s.nodeD x).observers = []
